@@ -113,6 +113,11 @@ func UniverseKV() *Universe {
 	b.Block("j2", "P")
 	b.KV("kvG", "A", "del k1", []In{change(kvF)})
 	b.Block("j3", "P")
+	// a block that deletes k1 and re-creates it (the re-creator cites the version the deletion leaves)
+	b.At("k1")
+	pD1 := b.KV("pD1", "A", "del k1", []In{change(kvA)})
+	b.KV("pRe", "B", "put k1 re", []In{{Tx: root, Offset: 1}})
+	b.Block("kd2", "P")
 	// pool candidates built at k1
 	b.At("k1")
 	pW1, _, err := b.W.BuildKVTx("B", "put k1 p1", []In{{Tx: root, Offset: 1}}, "pW1")
@@ -120,6 +125,8 @@ func UniverseKV() *Universe {
 		panic(err)
 	}
 	b.Raw("pW1", pW1, false)
+	// a block in which the deletion and an overwrite both supersede k1@kvA
+	b.BadBlock("kdx2", "k1", "M", []*pb.Transaction{pD1, pW1}, false)
 	pW2, _, err := b.W.BuildKVTx("A", "put k1 p2", []In{change(kvA)}, "pW2")
 	if err != nil {
 		panic(err)
